@@ -20,6 +20,8 @@ ROOTS = ['csep.core.poisson_evaluations.number_test', 'csep.core.binomial_evalua
          'csep.core.catalog_evaluations.number_test', 'csep.utils.stats.get_quantiles']
 TECHNIQUE = 'static analysis: def-use expansion + polynomial normal-form identities + role typing of call arguments'
 
+# spacing of float64 at 1e5 (the largest observed count of the quantifier) is 1.46e-11: a smaller offset is lost
+EPS_MIN = 1.5e-11
 PK = 'csep.core.poisson_evaluations._number_test_ndarray'
 NK = 'csep.core.binomial_evaluations._nbd_number_test_ndarray'
 
@@ -106,10 +108,11 @@ def _kernel(ck, qual, dist, nparams):
         v = const_value(d) if d is not None else NotImplemented
         if d is None:
             o.ok('no default; call sites checked')
-        elif v is not NotImplemented and isinstance(v, (int, float)) and 0 < v < 1:
-            o.ok('0 < %s < 1' % v)
+        elif v is not NotImplemented and isinstance(v, (int, float)) and EPS_MIN <= v < 1:
+            o.ok('%g <= %s < 1' % (EPS_MIN, v))
         else:
-            o.fail('epsilon default %s is not strictly between 0 and 1: the tails stop being inclusive at integer counts' % u(d))
+            o.fail('epsilon default %s is not in [%g, 1): below the spacing of float64 at the largest count of the quantifier (1e5) '
+                   'n_obs - epsilon rounds back to n_obs and the upper tail becomes exclusive; at 1 or above a neighbouring count is included' % (u(d), EPS_MIN))
     return f, a1, a2, fore, obs
 
 
@@ -164,8 +167,9 @@ def _public(ck, qual, kernel, pre):
     if 'epsilon' in m:
         ev = ex.expand(m['epsilon'])
         v = const_value(ev)
-        if v is NotImplemented or not (0 < v < 1):
-            probs.append('epsilon passed is `%s`, must be a constant in (0, 1)' % u(ev))
+        if v is NotImplemented or not (EPS_MIN <= v < 1):
+            probs.append('epsilon passed is `%s`, must be a constant in [%g, 1): a smaller offset is absorbed by float64 rounding for counts up '
+                         'to 1e5 (n_obs - epsilon == n_obs), which makes P(N >= n_obs) exclusive' % (u(ev), EPS_MIN))
     (o.fail('; '.join(probs)) if probs else o.ok('(forecast total, observed count, 0<eps<1)'))
     # quantile = (delta1, delta2) as unpacked from the kernel in order
     for flds in result_fields(P, g, ex):
